@@ -137,6 +137,19 @@ impl ArcRtt {
         self.0.lock().unwrap().base_pto(pto_count)
     }
 
+    /// Verification hook (read-only): `(latest_rtt, smoothed_rtt, rttvar, min_rtt, has_first_sample)`.
+    #[cfg(genmeta_gm_quic_verif)]
+    pub fn verif_state(&self) -> (Duration, Duration, Duration, Duration, bool) {
+        let g = self.0.lock().unwrap();
+        (
+            g.latest_rtt,
+            g.smoothed_rtt,
+            g.rttvar,
+            g.min_rtt,
+            g.first_rtt_sample.is_some(),
+        )
+    }
+
     /// Backs off initial RTT on loss before first RTT sample
     pub fn try_backoff_rtt(&self) {
         self.0.lock().unwrap().try_backoff_rtt();
